@@ -345,9 +345,24 @@ def main(argv):
                 if kk:
                     known_hits.append((kk, {'message': 'kani harness %s' % h['name']}))
                 elif not already:
-                    violations.append({'engine': 'kani', 'unit': h.get('file'), 'fn': h['name'], 'label': 'kani:' + h['name'], 'harness': h['name'],
-                                       'message': '; '.join(h.get('failed', []))[:600], 'rendered': h.get('log_tail', ''), 'kind': 'kani',
-                                       'witness': h.get('witness')})
+                    v = {'engine': 'kani', 'unit': h.get('file'), 'fn': h['name'], 'label': 'kani:' + h['name'], 'harness': h['name'],
+                         'message': '; '.join(h.get('failed', []))[:600], 'rendered': h.get('log_tail', ''), 'kind': 'kani',
+                         'witness': h.get('witness')}
+                    # an end-to-end native test registered for this harness (`//@witness kani <harness>`) shows the consequence on the public API
+                    ws = nx.witnesses_for('kani', h['name'], None)
+                    if ws:
+                        try:
+                            nres = nx.run([w['test'] for w in ws])
+                            hit = [(n, r) for n, r in nres.items() if r[0]]
+                            if hit:
+                                v['message'] += ' || native witness test %s FAILS on the real code' % hit[0][0]
+                                if not v.get('witness'):
+                                    v['witness'] = {'native_test': hit[0][0], 'log': hit[0][1][2], 'cmd': hit[0][1][3], 'test': None}
+                                else:
+                                    v['witness'] = dict(v['witness'], native_test=hit[0][0], native_log=hit[0][1][2][-3000:])
+                        except Exception as e:
+                            v['message'] += ' || native witness could not be run: %s' % str(e)[:200]
+                    violations.append(v)
             else:
                 undecided.append('kani harness %s: %s' % (h['name'], h['status']))
     except LostAnchor as e:
